@@ -539,3 +539,34 @@ Proof.
     split; [|exact Hb]. exact (ly_int_lex_det _ _ _ Hl Hlex).
   - intros [-> Hb]. apply plg_parse_int_complete; assumption.
 Qed.
+
+(* ---------- deviations from the strict RFC language ---------- *)
+Lemma rfc_int_lex_chars s v :
+  rfc_int_lex s v -> forallb (fun c => is_digit c || (c =? 43) || (c =? 45)) s = true.
+Proof.
+  intros [sg ds Hsg _ Hds]. rewrite forallb_app. apply andb_true_iff. split.
+  - destruct Hsg as [-> | [-> | ->]]; reflexivity.
+  - unfold all_digit in Hds. revert Hds. induction ds as [|d ds IH]; cbn [forallb]; intro H; [reflexivity|].
+    apply andb_true_iff in H. destruct H as [Hd Hr]. rewrite Hd, (IH Hr). reflexivity.
+Qed.
+
+(* white space around the number is accepted (documented tolerance), and so is anything after an
+   embedded NUL byte when the value comes with an explicit length (not documented) *)
+Theorem int_strict_rfc_refuted :
+  (int_store I8 [] [32; 49; 10] = Ok 1%Z /\ forall w, ~ rfc_int_lex [32; 49; 10] w) /\
+  (int_store I8 [] [49; 0; 120] = Ok 1%Z /\ forall w, ~ rfc_int_lex [49; 0; 120] w).
+Proof.
+  split; (split; [reflexivity|intros w H; apply rfc_int_lex_chars in H; discriminate]).
+Qed.
+
+(* a value without NUL is accepted exactly when it is the RFC representation between white space *)
+Lemma ly_int_lex_no_nul s v :
+  no_nul s -> ly_int_lex s v ->
+  exists ws1 core ws2, s = ws1 ++ core ++ ws2 /\ all_space ws1 /\ all_space ws2 /\ rfc_int_lex core v.
+Proof.
+  intros Hnn Hlex. destruct Hlex as [ws1 core ws2 tl v Hws1 Hws2 Htl Hcore].
+  destruct Htl as [-> | [j ->]].
+  - exists ws1, core, ws2. rewrite app_nil_r. auto.
+  - exfalso. unfold no_nul in Hnn. rewrite !forallb_app in Hnn. cbn [forallb] in Hnn.
+    rewrite N.eqb_refl in Hnn. cbn [negb andb] in Hnn. rewrite !andb_false_r in Hnn. discriminate.
+Qed.
